@@ -481,6 +481,19 @@ impl World {
 
         let mut vs = out.violations;
         self.model.compare(&snap, !out.removed.is_empty(), &mut vs);
+        // A subscription table that diverges in the step of a subscribe request means that request
+        // had the wrong outcome: "queries about a service (.., subscribe, ..) succeed exactly while
+        // it is live" is C03's clause.
+        if matches!(
+            &input,
+            TapInput::Message { msg: Message::SubscribeEvent(_) | Message::SubscribeAllEvents(_) | Message::SubscribeService(_), .. }
+        ) {
+            for v in vs.iter_mut() {
+                if (v.rule == "state.subscriptions" || v.rule == "state.mirror.subscriptions") && !v.props.contains(&Prop::C03) {
+                    v.props.push(Prop::C03);
+                }
+            }
+        }
         snapshot_consistency(&snap, &mut vs);
         if let TapInput::TakeStatistics = input {
             self.stats_expected.push([
